@@ -168,6 +168,11 @@ struct WBXMLEncoder_s {
     WBXMLCharsetMIBEnum output_charset;     /**< Output charset encoding */
     WB_BOOL flow_mode;                      /**< Is Flow Mode encoding activated ? */
     WB_ULONG pre_last_node_len;             /**< Output buffer length before last node encoding */
+    const WBXMLTagEntry *pre_last_node_tag; /**< Current Tag before last node encoding */
+    WB_UTINY pre_last_node_tag_page;        /**< Tag Code Page before last node encoding */
+    WB_UTINY pre_last_node_attr_page;       /**< Attribute Code Page before last node encoding */
+    WB_UTINY pre_last_node_indent;          /**< Indent before last node encoding */
+    WB_BOOL pre_last_node_in_content;       /**< 'in_content' before last node encoding */
     WB_BOOL textual_publicid;               /**< Generate textual Public ID instead of token (when generating WBXML output) */
 };
 
@@ -236,6 +241,7 @@ static WB_BOOL convert_char_to_ucs4(WB_UTINY ch, WB_ULONG *result);
 static WBXMLEncoder *encoder_duplicate(WBXMLEncoder *encoder);
 static WBXMLError encoder_encode_tree(WBXMLEncoder *encoder);
 static WB_BOOL encoder_init_output(WBXMLEncoder *encoder);
+static void encoder_rewind(WBXMLEncoder *encoder, WB_ULONG len, const WBXMLTagEntry *tag, WB_UTINY tag_page, WB_UTINY attr_page, WB_UTINY indent, WB_BOOL in_content);
 
 
 /*******************************
@@ -432,6 +438,11 @@ WBXML_DECLARE(WBXMLEncoder *) wbxml_encoder_create_real(void)
     
     encoder->flow_mode = FALSE;
     encoder->pre_last_node_len = 0;
+    encoder->pre_last_node_tag = NULL;
+    encoder->pre_last_node_tag_page = 0;
+    encoder->pre_last_node_attr_page = 0;
+    encoder->pre_last_node_indent = 0;
+    encoder->pre_last_node_in_content = FALSE;
     encoder->textual_publicid = FALSE;
 
     return encoder;
@@ -484,6 +495,11 @@ WBXML_DECLARE(void) wbxml_encoder_reset(WBXMLEncoder *encoder)
     encoder->cdata = NULL;
     
     encoder->pre_last_node_len = 0;
+    encoder->pre_last_node_tag = NULL;
+    encoder->pre_last_node_tag_page = 0;
+    encoder->pre_last_node_attr_page = 0;
+    encoder->pre_last_node_indent = 0;
+    encoder->pre_last_node_in_content = FALSE;
 
 #if defined( WBXML_ENCODER_USE_STRTBL )
     wbxml_list_destroy(encoder->strstbl, wbxml_strtbl_element_destroy_item);
@@ -684,6 +700,9 @@ WBXML_DECLARE(WBXMLError) wbxml_encoder_encode_node(WBXMLEncoder *encoder, WBXML
 WBXML_DECLARE(WBXMLError) wbxml_encoder_encode_node_with_elt_end(WBXMLEncoder *encoder, WBXMLTreeNode *node, WB_BOOL enc_end)
 {
     WB_ULONG   prev_len = 0;
+    const WBXMLTagEntry *prev_tag = NULL;
+    WB_UTINY   prev_tag_page = 0, prev_attr_page = 0, prev_indent = 0;
+    WB_BOOL    prev_in_content = FALSE;
     WBXMLError ret      = WBXML_OK;
     
     if ((encoder == NULL) || (node == NULL))
@@ -697,8 +716,13 @@ WBXML_DECLARE(WBXMLError) wbxml_encoder_encode_node_with_elt_end(WBXMLEncoder *e
     if (!encoder_init_output(encoder))
         return WBXML_ERROR_NOT_ENOUGH_MEMORY;
     
-    /* Backup length */
+    /* Backup length, and the state the encoding of the next nodes depends on */
     prev_len = wbxml_buffer_len(encoder->output);
+    prev_tag = encoder->current_tag;
+    prev_tag_page = encoder->tagCodePage;
+    prev_attr_page = encoder->attrCodePage;
+    prev_indent = encoder->indent;
+    prev_in_content = encoder->in_content;
     
     /* Check if result header is not already built */
     if ((encoder->flow_mode == TRUE) && (encoder->output_header == NULL) &&
@@ -729,8 +753,18 @@ WBXML_DECLARE(WBXMLError) wbxml_encoder_encode_node_with_elt_end(WBXMLEncoder *e
     if (ret != WBXML_OK)
         return ret;
     
-    if ((ret = parse_node(encoder, node, enc_end)) == WBXML_OK)
+    if ((ret = parse_node(encoder, node, enc_end)) == WBXML_OK) {
         encoder->pre_last_node_len = prev_len;
+        encoder->pre_last_node_tag = prev_tag;
+        encoder->pre_last_node_tag_page = prev_tag_page;
+        encoder->pre_last_node_attr_page = prev_attr_page;
+        encoder->pre_last_node_indent = prev_indent;
+        encoder->pre_last_node_in_content = prev_in_content;
+    }
+    else {
+        /* Nothing of a node that could not be encoded stays in the output */
+        encoder_rewind(encoder, prev_len, prev_tag, prev_tag_page, prev_attr_page, prev_indent, prev_in_content);
+    }
     
     return ret;
 }
@@ -762,11 +796,25 @@ WBXML_DECLARE(WBXMLError) wbxml_encoder_encode_tree(WBXMLEncoder *encoder, WBXML
 
 WBXML_DECLARE(WBXMLError) wbxml_encoder_encode_raw_elt_start(WBXMLEncoder *encoder, WBXMLTreeNode *node, WB_BOOL has_content)
 {
+    WB_ULONG   prev_len = 0;
+    const WBXMLTagEntry *prev_tag = NULL;
+    WB_UTINY   prev_tag_page = 0, prev_attr_page = 0;
+    WBXMLError ret      = WBXML_OK;
+    
     /* Init Output Buffer if needed */
     if (!encoder_init_output(encoder))
         return WBXML_ERROR_NOT_ENOUGH_MEMORY;
     
-    return parse_element(encoder, node, has_content);
+    prev_len = wbxml_buffer_len(encoder->output);
+    prev_tag = encoder->current_tag;
+    prev_tag_page = encoder->tagCodePage;
+    prev_attr_page = encoder->attrCodePage;
+    
+    /* Nothing of an element start that could not be encoded stays in the output */
+    if ((ret = parse_element(encoder, node, has_content)) != WBXML_OK)
+        encoder_rewind(encoder, prev_len, prev_tag, prev_tag_page, prev_attr_page, encoder->indent, encoder->in_content);
+    
+    return ret;
 }
 
 
@@ -821,7 +869,11 @@ WBXML_DECLARE(void) wbxml_encoder_delete_last_node(WBXMLEncoder *encoder)
     if (encoder == NULL)
         return;
     
-    wbxml_encoder_delete_output_bytes(encoder, wbxml_buffer_len(encoder->output) - encoder->pre_last_node_len);
+    /* The next node must be encoded as if the deleted one had never been: code pages (a SWITCH_PAGE
+     * of the deleted node is gone with it), current tag and indentation are those of that point too */
+    encoder_rewind(encoder, encoder->pre_last_node_len, encoder->pre_last_node_tag,
+                   encoder->pre_last_node_tag_page, encoder->pre_last_node_attr_page,
+                   encoder->pre_last_node_indent, encoder->pre_last_node_in_content);
 }
 
 
@@ -983,6 +1035,33 @@ static WB_BOOL encoder_init_output(WBXMLEncoder *encoder)
         return FALSE;
     
     return TRUE;
+}
+
+
+/**
+ * @brief Bring the output, and the state the encoding of the next nodes depends on, back to a previous point (Flow Mode)
+ * @param encoder    [in] The WBXML Encoder
+ * @param len        [in] Output buffer length at that point
+ * @param tag        [in] Current Tag at that point
+ * @param tag_page   [in] Tag Code Page at that point
+ * @param attr_page  [in] Attribute Code Page at that point
+ * @param indent     [in] Indent at that point
+ * @param in_content [in] 'in_content' at that point
+ */
+static void encoder_rewind(WBXMLEncoder *encoder, WB_ULONG len, const WBXMLTagEntry *tag, WB_UTINY tag_page, WB_UTINY attr_page, WB_UTINY indent, WB_BOOL in_content)
+{
+    wbxml_encoder_delete_output_bytes(encoder, wbxml_buffer_len(encoder->output) - len);
+
+    encoder->current_tag = tag;
+    encoder->tagCodePage = tag_page;
+    encoder->attrCodePage = attr_page;
+    encoder->indent = indent;
+    encoder->in_content = in_content;
+
+    /* A node that could not be encoded may have stopped inside a CDATA section */
+    encoder->in_cdata = FALSE;
+    wbxml_buffer_destroy(encoder->cdata);
+    encoder->cdata = NULL;
 }
 
 
